@@ -59,6 +59,8 @@ def strategy(tier):
                     m, su, _alt = pm
                     rnd_mag = {"hi": draw(st.integers(3, 6)), "form": draw(st.sampled_from(["frozen", "tuple"]))}
             return {"part": "A", "model": m, "setup": su, "seeds": [s1, s2], "iters": draw(st.integers(1, 4)), "random_magnitude": rnd_mag,
+                    # a fixed leap size for the tau-leap runs, as a whole number (Python int) or a fraction
+                    "pre_tau": draw(st.sampled_from([None, None, None, 1, 2, 0.5])),
                     "exact": draw(st.booleans()), "grid_n": draw(st.sampled_from([0, 0, 5])),
                     # the simulated object is a copy.deepcopy of the configured model (what the package's own
                     # profile-likelihood code does with models)
@@ -147,6 +149,9 @@ def oracle(case, rec):
             model = call("C16/deepcopy", case, copy.deepcopy, model)
             rec.label("model:deep-copy")
         key = "C16/" + ("exact" if exact else "tau")
+        if not exact and case.get("pre_tau") is not None:
+            model.pre_tau = case["pre_tau"] if su.get("clock", 1.0) == 1.0 else case["pre_tau"] / su["clock"]
+            rec.label("pre_tau:" + type(case["pre_tau"]).__name__)
         t_end = su["t0"] + su["horizon"]
         targ = np.linspace(su["t0"], t_end, case["grid_n"]) if case["grid_n"] else t_end
         rec.label("mode:" + ("exact" if exact else "tau"), "t:" + ("grid" if case["grid_n"] else "scalar"))
